@@ -105,7 +105,7 @@ class LocationRejects(Job):
 
 
 def jobs(tier):
-    N = 3 if tier == "quick" else 5
+    N = 3 if tier == "quick" else 6
     out = []
     for n in range(0, N + 1):
         for bbox in ("default", "given"):
@@ -128,7 +128,7 @@ ASSUMPTIONS = ["numpy.ma environment model validated per path against numpy 1.26
 
 
 def bounds(tier):
-    return {"track_length": "0..3" if tier == "quick" else "0..5", "bbox": "default and 4 symbolic numbers", "range_max": "absent / symbolic >= 0",
+    return {"track_length": "0..3" if tier == "quick" else "0..6", "bbox": "default and 4 symbolic numbers", "range_max": "absent / symbolic >= 0",
             "missing": "independent NaN flags on lon and lat"}
 
 
